@@ -140,7 +140,7 @@ def compare_case(cid, kind, doc, impl, model, limit=4096, backend=""):
         doc_api(api, impl[api] == "ok", impl[api] in ("syn", "oth"))
 
     # ---------------- oracle, the document embedded where the decoder skips / captures
-    for api in EMBED_APIS:
+    for api in EMBED_APIS + [k for k in impl if k.startswith("E_")]:
         if api not in impl:
             continue
         f = impl[api].split(":")
@@ -148,9 +148,27 @@ def compare_case(cid, kind, doc, impl, model, limit=4096, backend=""):
             continue
         cls, wrlx, wstd, wdepth = f[0], f[1] == "1", f[2] == "1", int(f[3])
         if cls == "ok" and not wrlx:
-            add("violation", "structurally malformed value accepted at a skipped / captured position", api, impl[api])
-        if cls in ("syn", "oth") and wstd and wdepth < limit - 1:
+            if api.startswith("E_f_"):
+                where = "as the value of field %r of a typed struct ({\"%s\":<doc>,\"zz\":1} or {\"zz\":1,\"%s\":<doc>} into tWide)" % ((api[4:],) * 3)
+            elif api.startswith("E_k_"):
+                where = "as a map key ({<doc>:1} into a map keyed by %s)" % api[4:]
+            elif api.startswith("E_"):
+                where = "inside a typed destination (%s, see harness/cmd/c02)" % api
+            else:
+                where = "at a skipped / captured position"
+            add("violation", "structurally malformed value accepted " + where, api, impl[api])
+        # typed fields / map keys (prefix E_) may reject well-formed values for reasons of value (a `,string` bool that is
+        # not a bool, base64, key syntax): only the accept direction is a statement about structure there
+        if api in EMBED_APIS and cls in ("syn", "oth") and wstd and wdepth < limit - 1:
             add("violation", "value accepted by encoding/json.Valid rejected at a skipped / captured position (depth %d)" % wdepth, api, impl[api])
+
+    # ---------------- oracle, stream decoder: a cleanly ended stream must be a sequence of structurally valid values
+    if "sdec" in impl:
+        f = impl["sdec"].split(":")
+        if f[0] == "ok" and f[1] != "1" and not unt32 and not short:
+            add("violation", "stream decoder decoded a malformed stream to a clean end", "sdec", impl["sdec"])
+        if f[0] == "loop":
+            add("violation", "stream decoder does not terminate on this input", "sdec", impl["sdec"])
 
     # ---------------- oracle, prefix APIs
     def prefix_api(api, acc, okbit, raw_len=None, raw_crc=None):
@@ -244,7 +262,14 @@ def compare_case(cid, kind, doc, impl, model, limit=4096, backend=""):
                 if not good:
                     add("tie", "validate_one/skip_one with MASK_VALIDATE_STRING: model says %s" % model["v5"], api, impl[api])
             want = mv[0] == "ok" and doc[int(mv[2]):].strip(WS) == b""
-            if (impl["urawstd"] == "ok") != want:
+            # jitdec.Decode first replaces invalid UTF-8 by U+FFFD when ValidateString is set (the text the scanner sees is
+            # then a different, longer one and the vector rounds fall elsewhere): exact comparison only on valid UTF-8
+            try:
+                doc.decode("utf-8")
+                utf8_ok = True
+            except UnicodeDecodeError:
+                utf8_ok = False
+            if utf8_ok and (impl["urawstd"] == "ok") != want:
                 add("tie", "ConfigStd RawMessage capture = skip_one(MASK_VALIDATE_STRING) + CheckTrailings: model says %s" % model["v5"],
                     "urawstd", impl["urawstd"])
         # the non-validating skippers (skip_one_fast): exact model comparison on every input, both blobs
